@@ -959,6 +959,405 @@ def c07_task(task):
 
 
 # ---------------------------------------------------------------------------------------------
+# C15: enum elements always destructure
+
+
+def c15_api_surface(sig, module_text):
+    """Public &mut self methods returning an enum-typed id, other than new_<enum> / define_<ctor>."""
+    import re
+    from .theory import snake
+    bad = []
+    allowed = set("new_" + snake(e) for e in sig.enums) | set("define_" + snake(c) for c in sig.ctor_of)
+    for m in re.finditer(r"pub fn (\w+)\s*\(\s*&mut self[^)]*\)\s*->\s*(\w+)", module_text):
+        name, ret = m.group(1), m.group(2)
+        if ret in sig.enums and name not in allowed:
+            bad.append("pub fn %s(&mut self, ..) -> %s" % (name, ret))
+    for e in sig.enums:
+        if re.search(r"pub fn new_%s_internal" % snake(e), module_text):
+            bad.append("new_%s_internal is public" % snake(e))
+    return bad
+
+
+def c15_task(task):
+    out = _empty_out()
+    pr = _prepare(task, out)
+    if pr is None:
+        return out
+    th, sig, meta = pr
+    if not sig.enums:
+        out["counts"]["programs"] -= 1
+        _cnt(out, "skipped_programs_without_enums")
+        return out
+    with open(os.path.join(meta["dir"], "out", th["name"] + ".eql.rs")) as f:
+        module_text = f.read()
+    out["evaluations"] += 1
+    surf = c15_api_surface(sig, module_text)
+    if surf:
+        out["violations"].append(_vio("c15:api-surface", "the generated API offers a way to create an enum element other than through a constructor:\n  " + "\n  ".join(surf), th, ""))
+    rng = random.Random(sha(str(task["spec"]), str(task["seed"]), "c15"))
+    hists = []
+    for i in range(task["histories"]):
+        create, facts = gen.gen_facts(rng, sig, n_elems=(1, 3), max_facts=10)
+        # more enum elements, equations between enum elements, closes
+        extra = []
+        labels = {t: [o[-1] for o in create if (o[0] == "new" and o[1] == t) or (o[0] == "newenum" and o[1] == t)] for t in sig.all_types}
+        n = 0
+        for e in sig.enums.values():
+            for _ in range(rng.randint(1, 4)):
+                cts = [c for c in e["ctors"] if all(labels[t] for t in c["args"])]
+                if not cts:
+                    break
+                ct = rng.choice(cts)
+                lab = "%sx%d" % (e["name"], n)
+                n += 1
+                extra.append(["newenum", e["name"], ct["name"]] + [rng.choice(labels[t]) for t in ct["args"]] + [lab])
+                extra.append(["cases", e["name"], lab])
+                labels[e["name"]].append(lab)
+            if len(labels[e["name"]]) >= 2 and rng.random() < 0.6:
+                extra.append(["eq", e["name"], rng.choice(labels[e["name"]]), rng.choice(labels[e["name"]])])
+        ops = gen.with_closes(rng, create + extra[: len(extra) // 2], facts + extra[len(extra) // 2:], closes=(0, 2))
+        ops2 = []
+        for op in ops:
+            ops2.append(op)
+            if op[0] == "close":
+                ops2.append(["sweep"])
+        hists.append(("h%d" % i, 1, ops2))
+    status, hs, script = _run(meta, hists, out)
+    for h in hs:
+        dirty_eq = False
+        last_roots = {}
+        for ev in h["events"]:
+            if ev.get("e") != "op":
+                continue
+            if "panic" in ev:
+                out["violations"].append(_vio("panic:" + ev["panic"][:80], "API call panicked in history %s: %s\nop: %s" % (h["tag"], ev["panic"], ev.get("toks")), th, script))
+                break
+            if ev["op"] == "close" and ev.get("capped"):
+                _inc(out, "close-capped")
+                break
+            if ev["op"] == "sweep":
+                last_roots = ev["public"]["roots"]
+            if ev["op"] == "eq":
+                dirty_eq = True
+            if ev["op"] == "close":
+                dirty_eq = False
+            if ev["op"] == "cases" and not ev.get("skipped") and not dirty_eq:
+                # the element just created through new_<enum>(case) must list that case
+                prev = [e2 for e2 in h["events"] if e2.get("e") == "op" and e2.get("i") == ev["i"] - 1]
+                if prev and prev[0]["op"] == "newenum" and not prev[0].get("skipped"):
+                    out["evaluations"] += 1
+                    cols_c = sig.funcs[prev[0]["ctor"]][0]
+
+                    def rt(ty, x):
+                        r = last_roots.get(ty, [])
+                        return r[x] if x < len(r) else x
+                    want = [prev[0]["ctor"]] + [rt(t, x) for t, x in zip(cols_c, prev[0]["args"])]
+                    got = [[c[0]] + [rt(t, x) for t, x in zip(sig.funcs[c[0]][0], c[1:])] for c in ev["ret"]]
+                    if want not in got:
+                        out["violations"].append(_vio("c15:new-enum-case-missing", "new_%s(%s) returned %d but %s_cases of it is %s" % (
+                            prev[0]["ty"], want, prev[0]["ret"], prev[0]["ty"], ev["ret"]), th, script, {"history.txt": h["tag"]}))
+                        break
+            if ev["op"] == "sweep":
+                pub, sw = ev["public"], ev["sweep"]
+                for E, lst in sw["case1"].items():
+                    for idv, c in enumerate(lst):
+                        out["evaluations"] += 1
+                        rid = pub["roots"][E][idv]
+                        if c == "panic":
+                            out["violations"].append(_vio("c15:case-panics", "%s_case(%d) panics after close(): the element is not the value of any constructor application\nmodel: %s" % (
+                                E, idv, json.dumps(pub)[:1000]), th, script, {"history.txt": h["tag"]}))
+                            break
+                        ctor, args = c[0][0], c[0][1:]
+                        cols = sig.funcs[ctor][0]
+                        rargs = [pub["roots"][t][x] for t, x in zip(cols, args)]
+                        if rargs + [rid] not in pub["rels"][ctor]:
+                            out["violations"].append(_vio("c15:case-wrong", "%s_case(%d) = %s%s but that constructor application is not equal to the element (root %d)" % (
+                                E, idv, ctor, tuple(args), rid), th, script, {"history.txt": h["tag"]}))
+                            break
+                        if rid != idv:
+                            _cnt(out, "case_queries_on_merged_enum_elements")
+                out["distinct"].append(sha(th.get("text") or emit(th), json.dumps(pub, sort_keys=True))[:16])
+    if hists and not out["samples"]:
+        out["samples"].append({"theory": (th.get("text") or emit(th))[:800], "history": [" ".join(map(str, o)) for o in hists[0][2]][:40]})
+    return out
+
+
+def c15_compile_side(res):
+    """Programs in which a rule makes a non-constructor term of enum type defined must be rejected."""
+    from .util import EQLOG_BIN, WORK, run
+    import tempfile
+    cases = []
+    base = "type Ta;\nenum Ea {\n    Cax(Ta),\n    Cbx()\n}\nfunc fz(Ta) -> Ea;\nfunc gz(Ea) -> Ea;\npred pa(Ea);\n"
+    bad_rules = [
+        ("then-defined", "rule ra {\n    if x: Ta;\n    then fz(x)!;\n}\n"),
+        ("then-defined-var", "rule ra {\n    if x: Ta;\n    then y := fz(x)!;\n    then pa(y);\n}\n"),
+        ("then-defined-nested", "rule ra {\n    if x: Ta;\n    then gz(Cax(x))!;\n}\n"),
+        ("then-defined-in-branch", "rule ra {\n    if x: Ta;\n    branch {\n        then fz(x)!;\n    } along {\n        then Cbx()!;\n    }\n}\n"),
+        ("then-defined-in-match", "rule ra {\n    if e: Ea;\n    match e {\n        Cax(x) => {\n            then fz(x)!;\n        }\n        Cbx() => {}\n    }\n}\n"),
+    ]
+    good_rules = [
+        ("ctor-defined", "rule ra {\n    if x: Ta;\n    then Cax(x)!;\n}\n"),
+        ("ctor-defined-var", "rule ra {\n    if x: Ta;\n    then y := Cax(x)!;\n    then pa(y);\n}\n"),
+        ("graph-insert", "rule ra {\n    if x: Ta;\n    if e = Cax(x);\n    then fz(x) = e;\n}\n"),
+    ]
+    d = tempfile.mkdtemp(prefix="c15-", dir=WORK)
+    try:
+        for kind, rules in (("reject", bad_rules), ("accept", good_rules)):
+            for name, rule in rules:
+                sd = os.path.join(d, name)
+                os.makedirs(os.path.join(sd, "src"))
+                with open(os.path.join(sd, "src", "th.eql"), "w") as f:
+                    f.write(base + rule)
+                rc, o, e = run([EQLOG_BIN, "src", "out"], cwd=sd, timeout=120)
+                res.evaluations += 1
+                res.count("compile_side_programs")
+                if kind == "reject" and rc == 0:
+                    res.violation("c15:accepted-nonctor-defined:" + name, "the compiler accepted a rule that makes a non-constructor term of enum type defined (%s):\n%s" % (name, base + rule),
+                                  {"th.eql": base + rule})
+                elif kind == "reject" and rc != 1:
+                    res.violation("c15:compiler-crash:" + name, "compiler exit status %s on\n%s\n%s" % (rc, base + rule, e[-800:]), {"th.eql": base + rule})
+                elif kind == "accept" and rc != 0:
+                    res.violation("c15:rejected-ctor-defined:" + name, "the compiler rejected a legitimate constructor definition (%s): %s" % (name, e[:500]), {"th.eql": base + rule})
+    finally:
+        import shutil
+        shutil.rmtree(d, ignore_errors=True)
+
+
+# ---------------------------------------------------------------------------------------------
+# C19: component build == module build
+
+
+def _norm(text):
+    return "\n".join(l.strip() for l in text.splitlines() if l.strip())
+
+
+def split_mods(text):
+    """Top-level `mod name { ... }` blocks of a generated module (brace matching; the generated
+    code is not indented). Returns ({name: inner text}, text without those blocks)."""
+    import re
+    mods = {}
+    rest = []
+    pos = 0
+    for m in re.finditer(r"^mod (\w+) \{\n", text, re.M):
+        if m.start() < pos:
+            continue
+        depth = 1
+        i = m.end()
+        while i < len(text) and depth > 0:
+            c = text[i]
+            if c == "{":
+                depth += 1
+            elif c == "}":
+                depth -= 1
+            i += 1
+        mods[m.group(1)] = text[m.end(): i - 1]
+        rest.append(text[pos:m.start()])
+        pos = i
+    rest.append(text[pos:])
+    return mods, "".join(rest)
+
+
+def c19_text_checks(th, mod_meta, comp_meta):
+    import re
+    name = th["name"]
+    bad = []
+    with open(os.path.join(mod_meta["dir"], "out", name + ".eql.rs")) as f:
+        mod_text = f.read()
+    with open(os.path.join(comp_meta["dir"], "out", name + ".eql.rs")) as f:
+        cmod_text = f.read()
+    comp_dir = os.path.join(comp_meta["dir"], "comp", name + ".eql")
+    comps = {}
+    for fn in sorted(os.listdir(comp_dir)):
+        if fn.endswith(".rs"):
+            with open(os.path.join(comp_dir, fn)) as f:
+                comps[fn[:-3]] = f.read()
+    # env structs declared in the component-mode module file vs in each component source
+    def structs(text):
+        return {m.group(1): _norm(m.group(0)) for m in re.finditer(r"pub struct (\w+Env)<'a> \{.*?^\}", text, re.S | re.M)}
+    # top-level declarations of the module file (the ones after the embedded modules, or all in component mode)
+    top = structs(split_mods(cmod_text)[1])
+    comp_structs = {}
+    for cn, ct in comps.items():
+        for k, v in structs(ct).items():
+            comp_structs[k] = (cn, v)
+    for k, v in top.items():
+        if k not in comp_structs:
+            bad.append("module declares %s but no component does" % k)
+        elif comp_structs[k][1] != v:
+            bad.append("environment struct %s differs between the module and component %s:\n--- module\n%s\n--- component\n%s" % (k, comp_structs[k][0], v, comp_structs[k][1]))
+    for k in comp_structs:
+        if k not in top:
+            bad.append("component %s declares %s which the module does not declare" % (comp_structs[k][0], k))
+    # imported vs exported symbols (with the parameter type named at both ends)
+    imports = dict(re.findall(r'#\[link_name = "(\w+)"\]\s*safe fn \w+\(env: (\w+)\);', cmod_text))
+    exports = {}
+    for cn, ct in comps.items():
+        for sym, ty in re.findall(r"#\[unsafe\(no_mangle\)\]\s*pub fn (\w+)\(mut env: (\w+)\)", ct):
+            exports[sym] = (cn, ty)
+    for sym, ty in imports.items():
+        if sym not in exports:
+            bad.append("module imports symbol %s which no component exports" % sym)
+        elif exports[sym][1] != ty:
+            bad.append("symbol %s: module passes %s, component %s expects %s" % (sym, ty, exports[sym][0], exports[sym][1]))
+        elif exports[sym][0] != sym:
+            bad.append("symbol %s is exported by the component file %s" % (sym, exports[sym][0]))
+    for sym in exports:
+        if sym not in imports:
+            bad.append("component %s exports %s which the module never imports" % (exports[sym][0], sym))
+    # rule code: module-mode embedded submodules vs component sources
+    emb_raw, strip_m0 = split_mods(mod_text)
+    embedded = {k: _norm(v) for k, v in emb_raw.items()}
+    prefix = "eql_%d_%s_" % (len(name), name)
+    for cn, ct in comps.items():
+        short = cn[len(prefix):] if cn.startswith(prefix) else cn
+        if short not in embedded:
+            bad.append("component %s has no embedded counterpart in the module build" % cn)
+        elif embedded[short] != _norm(ct):
+            a, b = embedded[short].splitlines(), _norm(ct).splitlines()
+            j = next((i for i in range(min(len(a), len(b))) if a[i] != b[i]), min(len(a), len(b)))
+            bad.append("rule code of %s differs between module build and component build near line %d:\n  module:    %s\n  component: %s" % (
+                short, j, a[j] if j < len(a) else "<end>", b[j] if j < len(b) else "<end>"))
+    for short in embedded:
+        if prefix + short not in comps:
+            bad.append("module build embeds %s but the component build has no such component" % short)
+    # the non-rule part of the module file must be identical in both build types
+    strip_m = strip_m0
+    strip_c = split_mods(cmod_text)[1]
+    def body(t):
+        i = t.find("#[allow(unused)]\nconst ")
+        j = t.rfind("// DIGEST:")
+        return _norm(t[i: j if j >= 0 else len(t)]) if i >= 0 else None
+    bm, bc = body(strip_m), body(strip_c)
+    if bm is not None and bc is not None and bm != bc:
+        a, b = bm.splitlines(), bc.splitlines()
+        j = next((i for i in range(min(len(a), len(b))) if a[i] != b[i]), min(len(a), len(b)))
+        bad.append("model code differs between the two build types near: %s | %s" % (a[j] if j < len(a) else "<end>", b[j] if j < len(b) else "<end>"))
+    return bad, len(comps)
+
+
+def c19_task(task):
+    out = _empty_out()
+    pr = _prepare(task, out)
+    if pr is None:
+        return out
+    th, sig, meta = pr
+    cmeta = driver.compile_theory(th, mode="component")
+    out["evaluations"] += 1
+    if not cmeta["ok"]:
+        what = "the program builds as a single module but not as module + component libraries (stage %s):\n%s" % (cmeta["stage"], cmeta["stderr"][-1500:])
+        out["violations"].append(_vio("c19:component-build-fails:" + cmeta["stage"], what, th, ""))
+        return out
+    try:
+        bad, ncomp = c19_text_checks(th, meta, cmeta)
+    except Exception as e:
+        _inc(out, "text-check-harness-error")
+        out.setdefault("notes", []).append(repr(e)[:300])
+        bad, ncomp = [], 0
+    _cnt(out, "components_compared", ncomp)
+    if bad:
+        out["violations"].append(_vio("c19:text:" + bad[0].split(":")[0][:50], "module build and component build disagree textually:\n  " + "\n  ".join(bad[:5]), th, ""))
+        return out
+    rng = random.Random(sha(str(task["spec"]), str(task["seed"]), "c19"))
+    hists = []
+    for i in range(task["histories"]):
+        ops = [(["close", 10] if o[0] == "close" else o) for o in gen.gen_history(rng, sig, closes=(0, 2), n_elems=(2, 3), max_facts=10)]
+        ops.append(["probe"])
+        hists.append(("h%d" % i, 3 if i % 2 == 0 else 2, ops))
+    s1, h1, raw1, e1 = driver.run_script(meta, hists, timeout=90)
+    s2, h2, raw2, e2 = driver.run_script(cmeta, hists, timeout=90)
+    if s1 != "ok" or s2 != "ok":
+        if s1 == "ok" and s2.startswith("crash"):
+            out["violations"].append(_vio("c19:component-driver-crash", "the component-linked driver crashed (%s) on a script the module-linked driver runs fine\n%s" % (s2, e2[-800:]), th, driver.script_text(hists)))
+        else:
+            _inc(out, "driver-" + s1 + "/" + s2)
+        return out
+    script = driver.script_text(hists)
+    for a, b in zip(raw1.split('{"e":"reset"'), raw2.split('{"e":"reset"')):
+        if not a.strip():
+            continue
+        out["evaluations"] += 1
+        if a != b:
+            la, lb = a.splitlines(), b.splitlines()
+            j = next((i for i in range(min(len(la), len(lb))) if la[i] != lb[i]), min(len(la), len(lb)))
+            what = "the same history gives different event logs on the two builds; first difference at event %d:\n  module:    %s\n  component: %s" % (
+                j, (la[j] if j < len(la) else "<end>")[:600], (lb[j] if j < len(lb) else "<end>")[:600])
+            out["violations"].append(_vio("c19:behaviour", what, th, script))
+            break
+        if a.count('"iters":') and any('"iters":%d' % k in a for k in range(3, 40)):
+            out["distinct"].append(sha(th.get("text") or emit(th), a)[:16])
+    if hists and not out["samples"]:
+        out["samples"].append({"theory": (th.get("text") or emit(th))[:800], "history": [" ".join(map(str, o)) for o in hists[0][2]][:30], "components": ncomp})
+    return out
+
+
+# ---------------------------------------------------------------------------------------------
+# C20: deterministic evaluation across processes
+
+
+def c20_task(task):
+    from .util import env_with
+    out = _empty_out()
+    pr = _prepare(task, out)
+    if pr is None:
+        return out
+    th, sig, meta = pr
+    rng = random.Random(sha(str(task["spec"]), str(task["seed"]), "c20"))
+    hists = []
+    for i in range(task["histories"]):
+        ops = gen.gen_history(rng, sig, closes=(0, 2), n_elems=(2, 4), max_facts=12)
+        ops2 = []
+        for op in ops:
+            ops2.append(op)
+            if op[0] in ("close",):
+                ops2[-1] = ["close", 12]
+                ops2.append(["probe"])
+        for r in sorted(sig.rels):
+            if sig.rels[r]:
+                ops2.append(["iter", r])
+        for t in sig.all_types:
+            ops2.append(["itertype", t])
+        hists.append(("h%d" % i, 3 if i % 4 == 0 else 2, ops2))
+    script = driver.script_text(hists)
+    variants = [
+        ("plain", (), env_with()),
+        ("aslr-off", ("setarch", "x86_64", "-R"), env_with()),
+        ("big-env", (), env_with({"VF_PAD_%d" % i: "x" * 997 for i in range(40)})),
+        ("malloc-perturb", (), env_with({"MALLOC_PERTURB_": "165", "MALLOC_ARENA_MAX": "1", "MALLOC_TOP_PAD_": "65536"})),
+        ("small-env", (), {"PATH": "/usr/bin:/bin"}),
+        ("repeat", (), env_with()),
+    ]
+    if task.get("valgrind"):
+        variants.append(("valgrind", ("valgrind", "-q", "--error-exitcode=0"), env_with()))
+    outs = []
+    for name, wrapper, env in variants:
+        st, hs, raw, err = driver.run_script(meta, hists, timeout=900 if name == "valgrind" else 90, wrapper=wrapper, env=env, script_name="script_c20.txt")
+        if st != "ok":
+            _inc(out, "driver-%s-%s" % (name, st.split(":")[0]))
+            continue
+        outs.append((name, raw))
+    if len(outs) < 2:
+        return out
+    base = outs[0]
+    for name, raw in outs[1:]:
+        out["evaluations"] += 1
+        _cnt(out, "process_pairs_compared")
+        if raw != base[1]:
+            la, lb = base[1].splitlines(), raw.splitlines()
+            j = next((i for i in range(min(len(la), len(lb))) if la[i] != lb[i]), min(len(la), len(lb)))
+            what = "two runs of the same history in fresh processes (%s vs %s) produced different transcripts; first difference at line %d:\n  %s: %s\n  %s: %s" % (
+                base[0], name, j, base[0], (la[j] if j < len(la) else "<end>")[:700], name, (lb[j] if j < len(lb) else "<end>")[:700])
+            out["violations"].append(_vio("c20:nondeterministic", what, th, script))
+            break
+    nontriv = base[1].count('"e":"cond"') > 2 * len(hists)
+    if nontriv:
+        out["distinct"].append(sha(th.get("text") or emit(th), base[1])[:16])
+    _cnt(out, "transcript_bytes_compared", len(base[1]) * (len(outs) - 1))
+    if hists and not out["samples"]:
+        out["samples"].append({"theory": (th.get("text") or emit(th))[:600], "history": [" ".join(map(str, o)) for o in hists[0][2]][:30], "variants": [v[0] for v in outs]})
+    return out
+
+
+# ---------------------------------------------------------------------------------------------
 # aggregation
 
 
@@ -1089,4 +1488,45 @@ def c07(tier, replay=None):
     return res.finish()
 
 
-TABLE = {"C01": c01, "C02": c02, "C03": c03, "C04": c04, "C05": c05, "C06": c06, "C07": c07}
+def c15(tier, replay=None):
+    res = Result("C15", tier)
+    res.rule = ("one evaluation = one enum element destructured with <enum>_case at a quiescent point (no panic; constructor application equal "
+                "to the element), one new_<enum>(case)/cases round trip, one API-surface scan of a generated module, or one compile-side program "
+                "(non-constructor enum-typed term made defined must be rejected); distinct = hash(theory, closed model)")
+    res.assumptions = ["enum elements are created only through the public API of the generated module"]
+    q = tier == "quick"
+    specs = specs_for(tier, 90, 900, ["enum"], corpus=True)
+    tasks = [{"spec": s, "seed": seed(), "histories": 25 if q else 70} for s in specs]
+    aggregate(res, pmap(c15_task, tasks))
+    c15_compile_side(res)
+    return res.finish()
+
+
+def c19(tier, replay=None):
+    res = Result("C19", tier)
+    res.rule = ("one evaluation = one program built both ways and compared textually (env structs, imported/exported symbols with parameter types, "
+                "rule code, model code) or one history replayed on both builds with byte comparison of the full event logs (ids, return values, "
+                "iteration order, per-iteration private dumps); non-trivial = history with a close of >= 2 rule iterations; distinct = hash(theory, log)")
+    res.assumptions = ["component libraries compiled by the compiler's own rustc invocations (real rustc, opt-level 0)"]
+    q = tier == "quick"
+    specs = specs_for(tier, 50, 500, PROFILES_ALL)
+    tasks = [{"spec": s, "seed": seed(), "histories": 12 if q else 40} for s in specs]
+    aggregate(res, pmap(c19_task, tasks))
+    return res.finish()
+
+
+def c20(tier, replay=None):
+    res = Result("C20", tier)
+    res.rule = ("one evaluation = one pair of fresh-process runs of the same script (ASLR off, padded environment, malloc perturbation, minimal "
+                "environment, plain repeat%s) compared byte-wise on the whole transcript: ids, return values, iteration order of every public "
+                "iterator and of every private index copy at every condition evaluation; non-trivial = transcript with multi-iteration closes; "
+                "distinct = hash(theory, transcript)" % ("" if tier == "quick" else ", valgrind"))
+    res.assumptions = ["the driver and probe themselves use ordered containers only"]
+    q = tier == "quick"
+    specs = specs_for(tier, 110, 1200, PROFILES_ALL)
+    tasks = [{"spec": s, "seed": seed(), "histories": 8 if q else 20, "valgrind": (not q) and (i % 10 == 0)} for i, s in enumerate(specs)]
+    aggregate(res, pmap(c20_task, tasks))
+    return res.finish()
+
+
+TABLE = {"C01": c01, "C02": c02, "C03": c03, "C04": c04, "C05": c05, "C06": c06, "C07": c07, "C15": c15, "C19": c19, "C20": c20}
